@@ -83,6 +83,38 @@ func registerIntrinsics(e *Engine) {
 		}
 		return BytesStr(bs)
 	})
+	reg("zzStringOf", func(fr *Frame, a []Value) Value {
+		// zzStringOf(name, n, class): n symbolic bytes drawn from a character class like "a-z0-9._-"
+		p := fr.p
+		n := p.concInt(a[1].(*smt.T), 0, 1<<16)
+		class := concStr(a[2])
+		var dom [128]bool
+		var rs [][2]int
+		for i := 0; i < len(class); i++ {
+			lo, hi := int(class[i]), int(class[i])
+			if i+2 < len(class) && class[i+1] == '-' {
+				hi = int(class[i+2])
+				i += 2
+			}
+			rs = append(rs, [2]int{lo, hi})
+			for c := lo; c <= hi && c < 128; c++ {
+				dom[c] = true
+			}
+		}
+		bs := make([]*smt.T, n)
+		for i := range bs {
+			t := p.symInt(concStr(a[0]), 0, 127)
+			var cs []*smt.T
+			for _, r := range rs {
+				cs = append(cs, smt.InRange(t, int64(r[0]), int64(r[1])))
+			}
+			p.addPC(smt.Or(cs...))
+			d := dom
+			setByteDom(t, &d)
+			bs[i] = t
+		}
+		return BytesStr(bs)
+	})
 	reg("zzChoose", func(fr *Frame, a []Value) Value {
 		opts := a[1].([]Value)
 		if len(opts) == 0 {
